@@ -93,6 +93,12 @@ impl MutableItem {
         key.verify(&encode_signable(seq, &v, salt.as_deref()), &signature)
             .map_err(|_| MutableError::InvalidMutableSignature)?;
 
+        // BEP_0044: the target MUST be the sha1 hash of the public key and the optional salt,
+        // otherwise anyone could store or serve items signed by their own key under this target.
+        if MutableItem::target_from_key(key.as_bytes(), salt.as_deref()) != target {
+            return Err(MutableError::InvalidMutableTarget);
+        }
+
         Ok(Self {
             target,
             key: key.to_bytes(),
@@ -161,6 +167,10 @@ pub enum MutableError {
     #[error("Invalid mutable item public key")]
     /// Invalid mutable item public key
     InvalidMutablePublicKey,
+
+    #[error("Mutable item target does not match its public key and salt")]
+    /// The target is not the sha1 hash of the public key and the optional salt
+    InvalidMutableTarget,
 }
 
 impl PutMutableRequestArguments {
